@@ -131,6 +131,16 @@ func genC05(rng *rand.Rand, n int, emit func(Case), dist map[string]int) {
 		human := ""
 		hookID := 0
 		for k := 0; k < nev; k++ {
+			if rng.Intn(6) == 0 {
+				// application code borrows a context from the pool outside of any request, leaves state on it and returns it
+				ac := e.AcquireContext()
+				ac.Set("stale-key", "left by AcquireContext user")
+				ac.SetPath("/stale/:p")
+				ac.SetParamNames("p", "q")
+				ac.SetParamValues("stale-v", "stale-w")
+				e.ReleaseContext(ac)
+				dist["acquire_release_between_requests"]++
+			}
 			if rng.Intn(4) == 0 {
 				addRoute(rng.Intn(5)) // a registration at a quiescent point; may raise maxParam
 				registrations++
